@@ -4,6 +4,7 @@
 Cases are typed:
   {"k": "yt", "url": u}   parse_youtube_url (fix_common_mistakes True and False), normalize_youtube_url,
                           extract_video_id_from_youtube_url, is_youtube_url + the six youtube regexes on u
+                          (+ "oracle_only": True — no model line, the oracle alone: the 1100-hop url of FX-C15-0c9bfa3)
   {"k": "id", "s": s}     is_youtube_video_id / is_youtube_channel_id
   {"k": "g",  "url": u}   is_amp_url, is_google_link, extract_url_from_google_link, parse_google_drive_url
                           (+ .url, .get_export_url), extract_id_from_google_drive_url + the three google regexes
@@ -16,37 +17,60 @@ import lib
 _Y = "Ural.Props.C19.Youtube."
 _G = "Ural.Props.C19.Google."
 THEOREMS = [
-    # ural/youtube.py
+    # ural/youtube.py — totality
     _Y + "parse_youtube_url_total",
     _Y + "extract_video_id_total",
     _Y + "normalize_youtube_url_total",
+    _Y + "record_kind_exhaustive",
+    _Y + "normalize_of_parsed",
+    _Y + "normalize_raise_unreachable",
+    # truncated routes parse to None
+    _Y + "truncated_route_none",
+    _Y + "truncated_short_host_none",
+    _Y + "truncated_canonical_routes_none",
+    # validators
     _Y + "record_valid",
     _Y + "extract_video_id_valid",
+    # what the parser guarantees about the fields
     _Y + "record_fields",
     _Y + "record_names_no_continuation",
+    # round trip, both values of fix_common_mistakes on both sides
+    _Y + "reparse_url_any_fix",
     _Y + "reparse_url",
     _Y + "reparse_url_module",
-    _Y + "normalize_unparsed_fixed",
-    _Y + "normalize_youtube_idempotent",
-    _Y + "normalize_youtube_idempotent_module",
-    _Y + "parse_eq_fuel",
     "Ural.Youtube.reparse_of_good",
     "Ural.Youtube.good_of_fields",
+    # idempotence, normalising preserves the parse
+    _Y + "normalize_youtube_idempotent",
+    _Y + "normalize_youtube_idempotent_module",
+    _Y + "parse_normalize",
+    _Y + "parse_normalize_module",
+    _Y + "extract_video_id_normalize",
     # ural/google.py
     _G + "parse_google_drive_url_total",
     _G + "extract_id_from_google_drive_url_total",
-    _G + "extract_id_spec",
+    _G + "truncated_path_none",
+    _G + "truncated_url_none",
+    _G + "pub_without_e_none",
     _G + "record_valid",
     _G + "reparse_url_public_link",
     _G + "reparse_url_file",
     _G + "reparse_url",
+    # helpers / restatements, audited for axioms like the rest but no support of any clause by themselves:
+    # normalize_unparsed_fixed (the `parsed is None` branch unfolded), Google.extract_id_spec (the definition of
+    # extract_id_from_google_drive_url unfolded), parse_eq_fuel (the fuel form of infer_redirection the `decide` examples run)
+    _Y + "normalize_unparsed_fixed",
+    _Y + "parse_eq_fuel",
+    _G + "extract_id_spec",
 ]
 TABLE_OBLIGATIONS = [
     _Y + "youtube_patterns_unchanged",
     _Y + "youtube_stops_are_pattern_classes",
     _Y + "youtube_templates_unchanged",
+    _Y + "youtube_list_infix_unchanged",
     _Y + "roundtrip_obligations",
     _Y + "youtube_domains_ordinary",
+    _Y + "youtube_domains_no_puny_label",
     _Y + "youtube_com_listed",
     _Y + "youtube_trie_knows_www",
     _G + "google_patterns_unchanged",
@@ -54,8 +78,9 @@ TABLE_OBLIGATIONS = [
     _G + "drive_types_plain",
 ]
 RULE = (
-    "yt: corpus (every fixed C19 finding of youtube.py/google.py, incl. the witnesses of FX-C19-7adbc32 / FX-C19-319af34 (formerly KF-C19-YT-4/5) and the "
-    "cache host hidden behind a TAB inside a playlist id), then every path of 0-2 segments over the 31-segment vocabulary {watch, embed, v, video, "
+    "yt: corpus (every fixed C19 finding of youtube.py/google.py, incl. the witnesses of FX-C19-7adbc32 / FX-C19-319af34 (formerly KF-C19-YT-4/5), the "
+    "cache host hidden behind a TAB inside a playlist id, and a youtube url behind 150 and behind 1100 nested redirection hops (FX-C15-0c9bfa3: the 1100-hop "
+    "one raised RecursionError out of parse_youtube_url while infer_redirection recursed; run under the normal recursion limit)), then every path of 0-2 segments over the 31-segment vocabulary {watch, embed, v, video, "
     "shorts, channel, user, c, playlist, feed, results, about, t} + id-like (11 chars), too-long (12), too-short (5), channel-id-like (UC+22), "
     "handle-like (@x, x, @, @@x, @watch), empty, blank, trailing-blank, '&'/'%'/non-ASCII/TAB-inside-a-continuation-pattern segments, and every "
     "3-segment path over its 22-segment core (route words, id-like, too long, too short, channel-id-like, @handle, handle, @, empty, trailing blank) "
@@ -94,16 +119,30 @@ TRUSTED = [
 ASSUMPTIONS = [
     "strings are over the model alphabet (DESIGN.md §4): ASCII exactly, non-ASCII from the plain set; no lone surrogates; netlocs with "
     "'[' ']' only from a fixed handful (urlsplit's bracket checks are approximated)",
-    "re-parsing is judged on the URL ural itself builds: normalize_youtube_url(u) for youtube (fix_common_mistakes at its default "
-    "True, as normalize_youtube_url calls the parser), record.url for google drive",
+    "the ORACLE judges re-parsing on the URL ural itself builds: normalize_youtube_url(u) for youtube, with fix_common_mistakes at its default "
+    "True on both parses (normalize_youtube_url has no such argument and calls the parser with the default), record.url for google drive; records "
+    "obtained with fix_common_mistakes=False are only required to be well formed by the oracle (the reading that demands less). The THEOREM is "
+    "stronger: reparse_url_any_fix covers both values of the option in the first parse and in the re-parse",
+    "totality of parse_youtube_url / extract_video_id_from_youtube_url / normalize_youtube_url includes their first step infer_redirection, whose model "
+    "(Model/Redirect.lean, property C15: well-founded recursion on the length of the url, C15.infer_total) is the loop of the code since /repo 0c9bfa3; the "
+    "recursion depth of the Python is no part of the model: the 150- and 1100-hop inputs of the corpus check it on the real functions on every run",
+    "the route literals of parse_youtube_url ('/watch', '/v/', '/video/', '/embed/', '/user/', '/c/', '/channel/', '/shorts/', 'youtu.be') and of "
+    "parse_google_drive_url ('docs.google.com', 'd', 'e', 'pub') are inline literals of the function bodies, pinned by no table obligation: they are tied to "
+    "the model by differential execution only (mutants M6 / M7-like edits are caught there); the five URL templates, the 11 patterns, the blacklist, the "
+    "domain list, DRIVE_TYPES are regenerated, and the inline '&list=%s' / the google url builders are regenerated as answers on probe values",
 ]
 UNPROVED = (
-    "youtube: nothing of the property is left unproved on the model: totality, validators, parse(canonical url of r) == r (reparse_url, "
-    "reparse_url_module) and normalize_youtube_url idempotence (normalize_youtube_idempotent, _module) hold for every string; the only hypothesis of the "
-    "generic forms is that the domain trie (a parameter) knows www.youtube.com, proved for the module's trie (youtube_trie_knows_www). google: reparse_url "
-    "FULL for both record types. is_youtube_url / is_amp_url / is_google_link / extract_url_from_google_link / is_youtube_*_id: no raise site in the model "
-    "(total by construction), their agreement with the code is differential only. Records obtained with fix_common_mistakes=False are only required to be "
-    "well formed (the canonical url is what normalize_youtube_url builds, with the default True)."
+    "youtube: nothing of the property is left unproved on the model. For every string, every idna decoder, every trie: totality (the model of "
+    "normalize_youtube_url ends with the code's `raise TypeError` branch, proved unreachable: normalize_raise_unreachable); truncated routes give None "
+    "(truncated_route_none, truncated_short_host_none, truncated_canonical_routes_none); validators (record_valid: video / short ids satisfy "
+    "is_youtube_video_id and are 11 long with either value of fix_common_mistakes; channel ids are only non-empty — the code does not validate them "
+    "either); parse(canonical url of r, fix') == r for r = parse(u, fix) with all four combinations of fix_common_mistakes (reparse_url_any_fix, "
+    "reparse_url_module); normalize_youtube_url idempotent (normalize_youtube_idempotent, _module) and parse(normalize(u)) == parse(u) (parse_normalize). The "
+    "only hypothesis of the generic forms is that the domain trie (a parameter) knows www.youtube.com, proved for the module's trie "
+    "(youtube_trie_knows_www). google: reparse_url FULL for both record types; truncated paths give None (truncated_path_none, truncated_url_none, "
+    "pub_without_e_none). is_youtube_url / is_amp_url / is_google_link / extract_url_from_google_link / is_youtube_*_id: no raise site in the model "
+    "(total by construction), their agreement with the code is differential only. Not a theorem: that the Python's own recursion depth suffices (see "
+    "ASSUMPTIONS: infer_redirection, FX-C15-0c9bfa3), and the inline route literals (differential only)."
 )
 
 ID = "dQw4w9WgXcQ"
@@ -147,7 +186,12 @@ NON_PLATFORM = [
     "https://www.youtube.com/signin?next=%2Fwatch%3Fv%3D" + ID, "https://accounts.google.com/x?continue=a%3Fnext%3D%252Fwatch%253Fv%253D" + ID2 + "%26f",
     "next=%2Fwatch%3Fv%3D" + ID + "\n", "NEXT=%2fWATCH%3fV%3d" + ID + "&list=" + PL, "next=%2Fwatch%3Fv%3D%41", "next%3D%252Fwatch%253Fv%253Dshort",
 ]
-CORPUS_YT = [
+# FX-C15-0c9bfa3: infer_redirection used to recurse one frame per hop; behind ~1000 nested hops parse_youtube_url raised RecursionError.
+# 150 hops always worked; 1100 hops is the revert detector (the check runs the real functions under the normal recursion limit).
+# The 1100-hop url (12 kB) is judged by the oracle only (real functions): the Lean model of infer_redirection cleans and searches the whole
+# url at every hop and needs ~15 s per call on it; the 150-hop url also runs through the model.
+NESTED_HOPS = ["http://a?u=" * n + "http://youtube.com/watch?v=" + ID for n in (150, 1100)]
+CORPUS_YT = NESTED_HOPS[:1] + [
     "youtu.be/",  # FX-C19-68df5e5 IndexError
     "youtu.be//", "http://youtu.be", "youtu.be/?x",
     "[",  # FX-C19-d948b00 ValueError out of is_youtube_url
@@ -253,6 +297,8 @@ ID_STRINGS = (
 def cases(rng, tier):
     thorough = tier != "quick"
     # ---- corpus
+    for u in NESTED_HOPS[1:]:
+        yield {"k": "yt", "url": u, "oracle_only": True}
     for u in CORPUS_YT:
         yield _yt(u)
     for u in CORPUS_G:
@@ -357,6 +403,8 @@ def _puny_table(url):
 
 def ops(case):
     k = case["k"]
+    if case.get("oracle_only"):
+        return []
     if k == "yt":
         u = case["url"]
         pt = _puny_table(u)
@@ -423,6 +471,8 @@ def impl(case):
 
     gd = lib.guarded
     k = case["k"]
+    if case.get("oracle_only"):
+        return []
     if k == "yt":
         u = case["url"]
         return [
